@@ -212,7 +212,19 @@ func c12(c *h.Ctx) {
 				if big && j == 0 {
 					max = 65534
 				}
-				ns = append(ns, mkNalu(uint8(r.Intn(4)), uint8(r.Intn(32)), genNaluData(r, max)))
+				// parameter sets may repeat: equal to the one before it, equal to an earlier one, header-only
+				switch {
+				case j > 0 && r.Chance(20):
+					prev := ns[len(ns)-1]
+					ns = append(ns, mkNalu(uint8(prev.NALRefIDC), uint8(prev.NALUType), append([]byte(nil), prev.Data...)))
+				case j > 1 && r.Chance(10):
+					first := ns[0]
+					ns = append(ns, mkNalu(uint8(first.NALRefIDC), uint8(first.NALUType), append([]byte(nil), first.Data...)))
+				case r.Chance(8):
+					ns = append(ns, mkNalu(uint8(r.Intn(4)), uint8(r.Intn(32)), nil))
+				default:
+					ns = append(ns, mkNalu(uint8(r.Intn(4)), uint8(r.Intn(32)), genNaluData(r, max)))
+				}
 			}
 			return ns
 		}
